@@ -241,3 +241,6 @@ def write_smtlib_for_checking(filename: str, exprs: typing.List[Node]):
     with open(filename, 'w') as file:
         for expr in exprs:
             __write_smtlib(file, expr)
+            # separate top-level expressions, two adjacent leaf nodes would
+            # otherwise be merged into a single token
+            file.write('\n')
